@@ -47,12 +47,17 @@ ALT = {   # second parameterisation of some groups
     'filename': (['-R', '.r[0-9][0-9],zip'], dict(reject=['.r[0-9][0-9]', 'zip'])),
     'regex': (['--reject-regex', 'x'], dict(reject_regex='x')),
     'directories': (['-X', '/priv,/dir/p*'], dict(exclude_directories=['/priv', '/dir/p*'])),
+    # list entries in another spelling of the same names (case, root dot)
+    'exclude_hostnames': (['--exclude-hostnames', 'B.Test'], dict(exclude_hostnames=['B.Test'])),
+    'hostnames': (['--hostnames', 'A.TEST.,b.test.'], dict(hostnames=['A.TEST.', 'b.test.'])),
+    'exclude_domains': (['--exclude-domains', 'X.a.Test.'], dict(exclude_domains=['X.a.Test.'])),
+    'domains': (['--domains', 'A.test,C.TEST'], dict(domains=['A.test', 'C.TEST'])),
 }
 DEFAULTS = dict(tries=20, level=5, page_requisites_level=5)
 START_HOSTS = ['a.test']
 
 SCHEMES = ['http', 'https', 'ftp']
-HOSTS = ['a.test', 'b.test', 'x.a.test', 'c.test']
+HOSTS = ['a.test', 'b.test', 'x.a.test', 'c.test', 'b.test.']
 PATHS = ['/', '/dir/', '/dir/index.html', '/dir/priv/f.zip', '/pub/pic.png', '/other',
          '/dir/sub/bad.html', '/dirx/q.html', '/dir/main-index.txt', '/pub/archive.r07',
          '/dir/page.r07.html']
